@@ -66,14 +66,14 @@ def registry():
     except ImportError:
         P = None
     reg['C03'] = dict(
-        rules=[T.rule_pb_sig, T.rule_pb_acc, T.rule_pb_out, T.rule_pb_view, T.rule_pb_ro, T.rule_pb_complete, T.rule_pb_pair, T.rule_setitem_copy] + ([G.rule_pb_grade('C03')] if G is not None else []),
+        rules=[T.rule_pb_sig, T.rule_pb_acc, T.rule_pb_out, T.rule_pb_view, T.rule_pb_ro, T.rule_pb_complete, T.rule_pb_pair, T.rule_setitem_copy, T.rule_pb_setitem_clear] + ([G.rule_pb_grade('C03')] if G is not None else []),
         explanation='Static decision of the tracer<->pullback calling protocol every traced program depends on. '
                     'Decides: existence/arity/keyword/permutation agreement between each recorder site and UTPM.pb_<name> '
                     '(R-pb-sig); accumulate-never-overwrite into adjoint storage (R-pb-acc, via the E1 alias/effect analysis '
                     'with interprocedural write modes); every pullback reaches its `out` (R-pb-out); view-mirrored ops have '
                     'guaranteed-view forwards (R-pb-view); pullbacks write only `out` (R-pb-ro); no certainly-unbound local / '
                     'unresolved name / dangling cls.X in any reachable pullback code (R-pb-complete); wrapper->kernel operand '
-                    'order (R-pb-pair); pullback kernels are homogeneous Taylor arithmetic (C03.pb-grade, E2). NOT decided: that each pullback kernel computes the right linear map (transposes, '
+                    'order (R-pb-pair); the pullback of an in-place write clears the overwritten adjoint on every path (R-pb-setitem-clear); pullback kernels are homogeneous Taylor arithmetic (C03.pb-grade, E2). NOT decided: that each pullback kernel computes the right linear map (transposes, '
                     'factors, signs) - the adjoint identity <xbar,v> = <ybar,F\'v> itself is numeric.',
         assumptions=['NumPy library summary tables of verif/effects.py (which calls return views / write out=)',
                      'receiver classes by class-hierarchy analysis on method names (no type checker available)',
@@ -83,7 +83,7 @@ def registry():
         explanation='Static decision of the state discipline that makes results a function of the call\'s arguments only. '
                     'Decides: pullbacks never write forward values or incoming adjoints (R-pb-ro, E1 effects); adjoints are '
                     're-initialised unconditionally for every node before every sweep and xbar_from_x ignores the previous xbar '
-                    '(R-sweep-init); buffer roll-back is matched by roll-forward (R-sweep-balance); node.x has a closed set of '
+                    '(R-sweep-init); buffer roll-back is matched by a roll-forward that redoes the writes in recording order (R-sweep-balance); node.x has a closed set of '
                     'writers (R-x-writers); nothing captured at recording time survives a forward evaluation, incl. recorded '
                     'keyword arguments (R-drv-fresh); user seeds are copied, not captured (R-seed-copy); the global recording '
                     'pointer and graph lists have a closed set of writers and replay cannot record (R-global). NOT decided: '
@@ -152,11 +152,13 @@ def registry():
             assumptions=['the weight calculus'])
         reg['C08'] = dict(
             rules=[G.rule_grade('C08'), lambda ctx: S.rule_base(ctx, ['_cholesky', '_qr_rectangular', '_qr_full', '_eigh1'], 'C08.base'),
-                   _only(P.rule_p3, FACT, 'C08.dir-after'), _only(P.rule_p3b, FACT, 'C08.dir-carried')],
+                   _only(P.rule_p3, FACT, 'C08.dir-after'), _only(P.rule_p3b, FACT, 'C08.dir-carried'),
+                   _only(P.rule_paxis, FACT, 'C08.dir-const'), _only(P.rule_p4, FACT, 'C08.dir-joint')],
             explanation='Static decision of structural conditions of the factorization recurrences: in _qr_rectangular, _qr_full, _cholesky, '
                         '_eigh1, lu, lu2, lu_factor every residual (dF, dG, H, S, K) and every factor coefficient is homogeneous of the order '
                         'being defined (O3) and the residual sums are maximal (O4); base points come from numpy.linalg.qr / scipy.linalg.qr / '
-                        'cholesky / eigh. Declared unanalysed (printed): _eigh (block deflation), UTPM.svd, UTPM.eig. NOT decided: the '
+                        'cholesky / eigh; inside the factorization functions no direction is addressed by a constant index, decided jointly over all '
+                        'directions, or carried over from another direction (C08.dir-*: the base-point factorization is per direction). Declared unanalysed (printed): _eigh (block deflation), UTPM.svd, UTPM.eig. NOT decided: the '
                         'projections (PL, Proj, 0.5), triangularity, orthogonality, eigenvalue ordering - i.e. the defining equations.',
             assumptions=['the weight calculus; declared summary of truncated_triple_dot (weight D, reads orders < D)'])
         reg['C12'] = dict(
@@ -169,7 +171,7 @@ def registry():
             assumptions=['affine index domain with Fourier-Motzkin style bound elimination; violations are reported only with a concrete witness valuation'])
     if S is not None and G is not None:
         reg['C10'] = dict(
-            rules=[S.rule_cmp, S.rule_shape, lambda ctx: S.rule_base(ctx, None, 'C10.base'), S.rule_dispatch, S.rule_linalg_kinds, S.rule_kinds, S.rule_kernel_dtype, S.rule_shape_arg],
+            rules=[S.rule_cmp, S.rule_shape, lambda ctx: S.rule_base(ctx, None, 'C10.base'), S.rule_dispatch, S.rule_linalg_kinds, S.rule_kinds, S.rule_kernel_dtype, S.rule_shape_arg, S.rule_transpose_axes],
             explanation='Static decision of the NumPy-agreement clauses that are visible in the shape of the code: comparison methods return '
                         'numpy.all(<own operator>(zeroth coefficients)) (C10.cmp); shape/size/ndim/len read one coefficient slice '
                         '(C10.shape); every kernel computes its zeroth coefficient with the NumPy/SciPy function it is named after '
@@ -178,7 +180,7 @@ def registry():
                         'every parameter (C10.dispatch); zeros/ones wrap every integer scalar shape NumPy accepts before concatenating it to (D, P) (C10.shape-arg). NOT decided: equality of values/shapes with NumPy for all arguments.',
             assumptions=['the installed numpy/scipy namespaces are consulted for the existence of fallback functions (no algopy code is run)'])
         reg['C13'] = dict(
-            rules=[S.rule_index, S.rule_view, S.rule_map, G.rule_grade('C13'), S.rule_sym, S.rule_alloc, S.rule_shape_arg],
+            rules=[S.rule_index, S.rule_view, S.rule_map, G.rule_grade('C13'), S.rule_sym, S.rule_alloc, S.rule_shape_arg, S.rule_transpose_axes],
             explanation='Static decision of the slice-wise/view clauses: the index prefixes of __getitem__/__setitem__ (C13.index); view operations '
                         'return storage of their argument with no copy on the path, value operations return fresh data (C13.view, E1 alias '
                         'analysis); trace/tril/triu/tile/fft/ifft apply the NumPy function of their name to slice [d,p] in full d,p loops and '
